@@ -86,6 +86,7 @@ def main():
         meta = json.load(open(metaf))
         demo = meta.get("demo_cmd", "")
         demo = re.split(r"\s{2,}\(|\s+#\s", demo)[0].strip()  # drop trailing free-text remarks
+        demo = re.sub(r"^\s*git apply \S+\s*&&\s*", "", demo)  # the patch is applied by this script
         # agents were told to use CARGO_TARGET_DIR=<wt>/target; make sure the command does
         demo_env = {"CARGO_TARGET_DIR": target}
         rec = {"id": "%s-%s%s" % (pid, tag, k), "property": pid, "demo_cmd": demo}
